@@ -28,7 +28,8 @@ func (d *Decoder) readType() (string, error) {
 		d.typList = append(d.typList, t)
 		return t, nil
 	}
-	i, err := d.readInt(_tagRead)
+	// a reference to an earlier type name: the tag just read is the first octet of the int
+	i, err := d.readInt(int32(tag))
 	if err != nil {
 		return "", newCodecError("readType", err)
 	}
